@@ -148,6 +148,26 @@ func readLines(path string) ([][]byte, error) {
 }
 
 // validate executes one batch of programs and validates the trace with TLC.
+// tolerantOp reports whether the event is a conversion whose result the properties pin down only up to a
+// tolerance, so that builds with different word sizes may differ.
+func tolerantOp(line []byte) bool {
+	var ev struct {
+		Op   string `json:"op"`
+		S    string `json:"s"`
+		Base int    `json:"base"`
+	}
+	if json.Unmarshal(line, &ev) != nil {
+		return false
+	}
+	switch ev.Op {
+	case "SetFloat", "SetFloat64", "Float", "Ctx.NewFloat", "Ctx.NewFloat64":
+		return true
+	case "Parse", "SetString", "UnmarshalText", "UnmarshalJSON", "ParseDecimal", "Scan", "Ctx.NewString", "Ctx.ParseDecimal":
+		return strings.ContainsAny(ev.S, "pPxXbBoO") || ev.Base == 2 || ev.Base == 8 || ev.Base == 16
+	}
+	return false
+}
+
 // abstractEvent renders an event without its word-size dependent parts: every observed mantissa becomes its
 // digit string (dw digits per word, least significant word first in the log) and the digests are dropped.
 func abstractEvent(line []byte, dw int) string {
@@ -235,10 +255,20 @@ func validate(env *run.Env, bin string, traceMod string, idx int, progs []gen.Pr
 		}
 		// another word size: the logs are compared after abstraction (mantissa words -> digit string, no digests)
 		abs := strings.HasPrefix(ob.tag, "arch=")
+		skipProg := false // the rest of the current program is not compared (see tolerantOp)
 		for i := 0; i < len(lines) || i < len(ol); i++ {
 			same := i < len(lines) && i < len(ol) && string(lines[i]) == string(ol[i])
+			if abs && i < len(lines) && bytes.Contains(lines[i][:min(len(lines[i]), 400)], []byte(`"op":"Reset"`)) {
+				skipProg = false
+			}
 			if !same && abs && i < len(lines) && i < len(ol) {
-				same = abstractEvent(lines[i], 19) == abstractEvent(ol[i], 9) || bytes.Contains(ol[i], []byte(`"skip32":true`))
+				same = skipProg || abstractEvent(lines[i], 19) == abstractEvent(ol[i], 9) || bytes.Contains(ol[i], []byte(`"skip32":true`))
+				if !same && tolerantOp(lines[i]) {
+					// the property allows this conversion a tolerance (SetFloat: dozens of ulps, SetFloat64 and binary
+					// literals: one ulp when inexact): two word sizes may legitimately differ, and the programs' states
+					// diverge from here on
+					same, skipProg = true, true
+				}
 			}
 			if !same {
 				pid := "C07"
